@@ -73,4 +73,11 @@ PROPS = {
         suites=[dict(driver="lib", suite="shimurl")],
         assumptions=["the configured backend host is a valid non-empty host[:port]"],
     ),
+    "C11": dict(
+        technique="Lean 4 theorems: base64 and message-codec round trips for all byte strings, exactly-once-in-order invariant and bounded progress of the bounded-FIFO relay over all interleavings and batchings, frame theorem for header injection on JSON values; skeleton facts (T3) of the relay goroutines and channel capacities; differential runs of the real shim against a real websocket backend",
+        level_text="Proof for all byte strings that binary payloads survive the version-1 base64 transport and that the serialiser and the client-message decoder are mutually inverse on text and binary messages; proof for all message sequences, channel capacities, batchings and interleavings of producer/consumer steps that delivered ++ buffered ++ unsent is always the original sequence (so each side holds a prefix, and everything once the queues drain), with bounded progress; proof that injection changes only an object at resource.headers, only by adding absent request headers. Channel capacities and relay goroutine structure are regenerated from connection.go.",
+        level_note=STD_NOTE + "Modelled, not verified: encoding/json text parsing and printing (values are an inductive type; numbers are compared as IEEE doubles), gorilla/websocket framing, Go channel FIFO semantics, the 'one data post and one poll outstanding at a time' discipline of the browser shim (a precondition of the property).",
+        suites=[dict(driver="lib", suite="wsrelay"), dict(driver="lib", suite="wsinject")],
+        assumptions=["Go channels are FIFO", "one data post and one poll outstanding at a time (as the injected browser shim does)", "JSON object keys are unique"],
+    ),
 }
